@@ -237,6 +237,55 @@ func (g *gen) slice(depth int) *V {
 	return v
 }
 
+// a heterogeneous []interface{} as it sits in a decoded JSON document: numbers, bools, nils, strings, []byte, maps, pointers to
+// structs, nested slices - in every order (a scalar first and a container later, a container first, nil first ...).  Met as a
+// VALUE OF A MAP it is walked element by element (maps swept, pointers to structs filtered; strings and nested slices of a
+// slice are left alone - "nothing reasonable yet")
+func (g *gen) islice(depth int) *V {
+	v := &V{K: "islice"}
+	elem := func() *V {
+		switch g.r.Intn(10) {
+		case 0:
+			return &V{K: "int", I: int64(g.r.Intn(9))}
+		case 1:
+			return &V{K: "bool", I: int64(g.r.Intn(2))}
+		case 2:
+			return &V{K: "nilif"}
+		case 3:
+			return &V{K: "str", C: g.can()}
+		case 4:
+			return &V{K: "bytes", C: g.can()}
+		case 5, 6:
+			m := g.leafMap(true, 1+g.r.Intn(2))
+			if depth > 0 && g.r.Chance(1, 3) {
+				m.Keys = append(m.Keys, "k5")
+				m.Vals = append(m.Vals, g.islice(depth-1))
+			}
+			return m
+		case 7, 8:
+			return &V{K: "ptr", Elem: g.strct(0)}
+		default:
+			if g.r.Bool() {
+				return &V{K: "strs", Cs: []int{g.can()}}
+			}
+			return &V{K: "islice", Elems: []*V{{K: "int", I: 1}, g.leafMap(true, 1)}}
+		}
+	}
+	for n := 2 + g.r.Intn(4); n > 0; n-- {
+		v.Elems = append(v.Elems, elem())
+	}
+	if g.r.Chance(1, 2) {
+		// a scalar (or nil) first, a container last
+		v.Elems[0] = []*V{{K: "int", I: 3}, {K: "bool", I: 1}, {K: "nilif"}, {K: "int", I: 0}}[g.r.Intn(4)]
+		if g.r.Bool() {
+			v.Elems[len(v.Elems)-1] = g.leafMap(true, 2)
+		} else {
+			v.Elems[len(v.Elems)-1] = &V{K: "ptr", Elem: g.strct(0)}
+		}
+	}
+	return v
+}
+
 func (g *gen) mapLeaf() *V {
 	switch g.r.Intn(7) {
 	case 0, 1, 2:
@@ -288,7 +337,11 @@ func (g *gen) mapv(depth int) *V {
 					e = g.mapLeaf()
 				}
 			case 5:
-				e = &V{K: "nilptr", Elem: g.strct(0)}
+				if g.r.Bool() {
+					e = g.islice(1)
+				} else {
+					e = &V{K: "nilptr", Elem: g.strct(0)}
+				}
 			case 6:
 				if g.r.Chance(1, 3) {
 					e = g.tmap(0) // a Taggable map DIRECTLY as a value of an untagged map is swept as an untagged map
@@ -352,6 +405,10 @@ func (g *gen) tmap(depth int) *V {
 		v.Keys = append(v.Keys, k)
 		switch g.r.Intn(9) {
 		case 8:
+			if g.r.Chance(1, 3) {
+				v.Vals = append(v.Vals, g.islice(1)) // a mixed []interface{} under a key (tags name strings only: this key stays untagged)
+				break
+			}
 			v.Vals = append(v.Vals, &V{K: "bytes", C: g.can()}) // a []byte under a (possibly tagged) key
 		case 0:
 			v.Vals = append(v.Vals, &V{K: "int", I: 7})
@@ -588,7 +645,7 @@ func (g *gen) cloneFresh(v *V) *V {
 		}
 	case "ptr", "iface":
 		c.Elem = g.cloneFresh(v.Elem)
-	case "slice":
+	case "slice", "islice":
 		c.Elems = nil
 		for _, e := range v.Elems {
 			c.Elems = append(c.Elems, g.cloneFresh(e))
